@@ -47,17 +47,34 @@ def decl? (w : String) : Option Decl :=
     | _, _, _, _ => none
   | _ => none
 
-def file? (w : String) : Option (Str × List Str) :=
+/-- bytes with run-length segments: `seg+seg+…`, a segment is hex or `N*hex` (N copies) -/
+def hexRep? (s : String) : Option Str :=
+  if s = "-" then some [] else
+  (s.splitOn "+").foldlM (fun acc seg =>
+    match seg.splitOn "*" with
+    | [h] => (hexStr? h).map (fun b => acc ++ b)
+    | [n, h] => match n.toNat?, hexStr? h with
+      | some n, some b => some (acc ++ (List.replicate n b).flatten)
+      | _, _ => none
+    | _ => none) []
+
+/-- a response file: `path=bytes` (content given as bytes: `Cmd.filesOf` reads it like `loadArgsFromFile`) or
+    `path:line,line,…` (LF-terminated short lines) -/
+def file? (w : String) : Option ((Str × List Str) ⊕ (Str × Option Str)) :=
   match w.splitOn "=" with
-  | [p, raw] => match hexStr? p, hexStr? raw with      -- content given as bytes: the lines are what bufio.Scanner yields
-    | some p, some raw => some (p, linesOf raw)
+  | [p, raw] => match hexStr? p, hexRep? raw with
+    | some p, some raw => some (.inr (p, some raw))
     | _, _ => none
   | _ =>
     match w.splitOn ":" with
     | [p, l] => match hexStr? p, hexList? l with
-      | some p, some l => some (p, l)
+      | some p, some l => some (.inl (p, l))
       | _, _ => none
     | _ => none
+
+def filesFrom (l : List ((Str × List Str) ⊕ (Str × Option Str))) : Files :=
+  l.filterMap (fun e => match e with | .inl x => some x | .inr _ => none) ++
+  filesOf (l.filterMap (fun e => match e with | .inr x => some x | .inl _ => none))
 
 def orc? (w : String) : Option (Nat × Str × String) :=
   match w.splitOn ":" with
@@ -99,6 +116,7 @@ def doParse (incl : String) (ws : List String) : String :=
   let s := sections ws
   match s.o.mapM decl?, s.f.mapM file?, s.r.mapM orc?, s.a.mapM hexStr?, s.b.mapM hexStr? with
   | some decls, some files, some orc, some args, some args2 =>
+    let files := filesFrom files
     if s.twice then
       let (out, rest1) := parseTwice orc (incl == "1") decls files args args2
       match out with
@@ -119,12 +137,40 @@ def doFx (entry writer : String) : String :=
   | "cmdnone" | "cmdbad" => "returned:none"   -- RunCommand returns an error for a missing / unknown command name
   | _ => "bad-op"
 
+/-- `ax <status> <op> …`: a history of atexit.Register / Unregister calls, then `Exit(status)`.  `r:<act>` registers
+    a function (functions are numbered by the ordinal of their registration) that announces itself and then: `p`
+    nothing, `s`/`e`/`n`/`t`/`z` panics in some way, `x` calls Exit again, `g` registers function 900+own number,
+    `u<k>` unregisters the k-th registration; `u<k>` unregisters the id returned by the k-th Register. -/
+def doAx (status : String) (ws : List String) : String :=
+  let parsed : Option (List AtExit.Op × List AtExit.Act) := ws.foldlM (fun (p : List AtExit.Op × List AtExit.Act) w =>
+    let n := p.2.length
+    if w.startsWith "r:" then
+      let a := (w.drop 2).toString
+      let act : Option AtExit.Act :=
+        if a = "p" then some .plain
+        else if a = "s" || a = "e" || a = "n" || a = "t" || a = "z" then some .panic
+        else if a = "x" then some .reExit
+        else if a = "g" then some (.reg (900 + n))
+        else if a.startsWith "u" then (a.drop 1).toString.toNat?.map AtExit.Act.unreg
+        else none
+      act.map (fun act => (p.1 ++ [.reg n], p.2 ++ [act]))
+    else if w.startsWith "u" then (w.drop 1).toString.toNat?.map (fun k => (p.1 ++ [.unreg k], p.2))
+    else none) ([], [])
+  match status.toNat?, parsed with
+  | some st, some (ops, acts) =>
+    (match AtExit.runHistory (fun f => (acts[f]?).getD .plain) ops st with
+     | some (log, st) => "exit " ++ toString st ++ " run " ++
+         (if log.isEmpty then "~" else ",".intercalate (log.map toString))
+     | none => "no-exit")
+  | _, _ => "bad-op"
+
 def step (_ : Unit) (line : String) : Unit × String :=
   let out :=
     match words line with
     | "pi" :: incl :: ws => doParse incl ws
     | "pc" :: incl :: ws => doParse incl ws
     | ["fx", entry, writer] => doFx entry writer
+    | "ax" :: status :: ws => doAx status ws
     | _ => "bad-op"
   ((), out)
 
